@@ -104,7 +104,7 @@ CHECKS = {
          "DESIGN.md section 5 C19"),
  "C04": ("exploration",
          "crash/hang monitor over generated hostile inputs pushed through the whole consumer chain in journaled child processes (plain + race/checkptr builds)",
-         "Five seeded generators (raw footers with every single-field mutation; structure-aware adversarial TOCs in gzip / zstd:chunked / external-TOC framing: hardlink cycles and DAGs, huge/negative sizes and offsets, overlapping/unsorted/zero-size chunks, null entries, odd names; mutations of genuine blobs; 50 kinds of hostile registry replies; hostile tar/gzip/zstd builder inputs) are pushed through estargz.Open and every Reader method, each Decompressor, both metadata stores with a full walk, reader.NewReader -> VerifyTOC/SkipVerify -> Cache -> OpenFile/ReadAt/GetPassthroughFd, and the full layer stack (Resolve, Verify, Prefetch, RootNode, node walk, BackgroundFetch). Cases run in child batches with an on-disk journal written before each case; a recovered panic, a process death (attributed through the journal and the crash report) or a hang (decided on CPU time and idleness of the case re-run alone, not on wall-clock) is a violation keyed by kind + normalised message + innermost repository function. Out-of-memory and thread exhaustion are inconclusive. Holds on the inputs generated.",
+         "Five seeded generators (raw footers with every single-field mutation; structure-aware adversarial TOCs in gzip / zstd:chunked / external-TOC framing: hardlink cycles and DAGs, huge/negative sizes and offsets, overlapping/unsorted/zero-size chunks, null entries, odd names; mutations of genuine blobs; 50+ kinds of hostile registry replies incl. redirect loops, ping-pongs and long chains on one host and across hosts, a share of them through registry hosts built the production way (service/resolver.RegistryHostsFromConfig: retrying client, redirect hook, request timeouts); hostile tar/gzip/zstd builder inputs) are pushed through estargz.Open and every Reader method, each Decompressor, both metadata stores with a full walk, reader.NewReader -> VerifyTOC/SkipVerify -> Cache -> OpenFile/ReadAt/GetPassthroughFd, and the full layer stack (Resolve, Verify, Prefetch, RootNode, node walk, BackgroundFetch). Cases run in child batches with an on-disk journal written before each case; a recovered panic, a process death (attributed through the journal and the crash report) or a hang (decided on CPU time and idleness of the case re-run alone, not on wall-clock) is a violation keyed by kind + normalised message + innermost repository function. Out-of-memory and thread exhaustion are inconclusive. Holds on the inputs generated.",
          "Trusted: the harness walkers are depth- and visit-bounded and only make calls the daemon can make. Memory exhaustion (allocation sizes below the 1 GiB chunk bound, the rlimit of the child) is outside the statement and reported as inconclusive. Quadratic-but-finite behaviour is not judged.",
          "DESIGN.md section 5 C04"),
 }
